@@ -391,6 +391,11 @@ func (g *gen) genBlock(bidx int, draining bool) {
 			continue
 		}
 		clampMsg(&tx.Msg)
+		if g.chance(0.04) && tx.Msg.Kind != KSend {
+			// bech32 may be written all upper-case: the same account, another spelling
+			tx.Msg.Upper = true
+			g.intents["upper_case_signer"]++
+		}
 		// mempool faults
 		if g.chance(0.03) {
 			tx.Dup = true
@@ -509,6 +514,10 @@ func (g *gen) opAddAllowed(a *MAuction) Op {
 	perm := g.r.Perm(len(g.m.Actors))
 	for _, who := range perm[:n] {
 		op.Entries = append(op.Entries, AllowedEntry{Who: who, Max: g.capFor(a).String()})
+	}
+	if g.chance(0.04) {
+		op.Entries[g.r.Intn(len(op.Entries))].Upper = true
+		g.intents["upper_case_allow_list_entry"]++
 	}
 	if g.chance(0.04) {
 		// one invalid entry makes the whole call fail (all or none)
